@@ -76,6 +76,11 @@ pub fn import_signing_key(keypair: &[u8]) -> Result<impl SigningKey, Error> {
 /// import a existing verifying key, using the first byte flag to detect the signature scheme
 ///
 pub fn import_verifying_key(veriying_key: &[u8]) -> Result<Box<dyn VerifyingKey>, Error> {
+    if veriying_key.is_empty() {
+        return Err(Error::InvalidKeyLenght(
+            "key lenght must be 33,  value: 0 ".to_string(),
+        ));
+    }
     if veriying_key[0] != KEY_TYPE_ED_2519 {
         return Err(Error::InvalidKeyType(KEY_TYPE_ED_2519));
     }
